@@ -49,6 +49,8 @@ def run(ck: Check, repo: Repo) -> None:
     ck.rule("C14.9", "policy-gradient get_action hands the actor's action on with the axes the actor produced (batch, *action_shape): no axis is inserted or removed "
                      "between the actor call and the return")
     _no_axis_change(ck, repo)
+    from ._c14_r3 import run_r3
+    run_r3(ck, repo)
     n_arg = 0
     for modname, q, mask in DISCRETE:
         n_arg += _discrete(ck, repo, repo.fn(modname, q), mask)
@@ -644,6 +646,13 @@ _DD = "agilerl/algorithms/ddpg.py"
 _MA = "agilerl/algorithms/maddpg.py"
 _PP = "agilerl/algorithms/ppo.py"
 VARIANTS = [
+    ("rescale-softsign-filed-under-zero-one", "agilerl/networks/actors.py", '        if output_activation in ["Tanh", "Softsign"]:\n            prescaled_min, prescaled_max = -1.0, 1.0\n        elif output_activation in ["Sigmoid", "Softmax", "GumbelSoftmax"]:',
+     '        if output_activation in ["Tanh"]:\n            prescaled_min, prescaled_max = -1.0, 1.0\n        elif output_activation in ["Sigmoid", "Softsign", "Softmax", "GumbelSoftmax"]:', "fire", "C14.10"),
+    ("rescale-ranges-by-equality-tests-ok", "agilerl/networks/actors.py", '        if output_activation in ["Tanh", "Softsign"]:\n            prescaled_min, prescaled_max = -1.0, 1.0',
+     '        if output_activation == "Tanh" or output_activation == "Softsign":\n            prescaled_min = -1.0\n            prescaled_max = 1.0', "silent", None),
+    ("rainbow-noise-mode-from-agent-flag", _RB, "        self.actor.train(mode=training)", "        self.actor.train(mode=self.training)", "fire", "C14.11"),
+    ("rainbow-noise-mode-positional-ok", _RB, "        self.actor.train(mode=training)", "        self.actor.train(training)", "silent", None),
+
     ("ppo-box1-action-gets-extra-axis", "agilerl/algorithms/ppo.py", "        # Clip to action space during inference\n        action = action.cpu().data.numpy()", "        if isinstance(self.action_space, spaces.Box) and self.action_space.shape == (1,):\n            action = action.unsqueeze(1)\n\n        # Clip to action space during inference\n        action = action.cpu().data.numpy()", "fire", "C14.9"),
     ("matd3-clamp-bounds-reduced-to-scalars", "agilerl/algorithms/matd3.py", "                        torch.as_tensor(self.min_action[idx], device=actions.device),\n                        torch.as_tensor(self.max_action[idx], device=actions.device),", "                        float(self.min_action[idx].min()),\n                        float(self.max_action[idx].max()),", "fire", "C14.2"),
     ("ippo-clip-space-by-loop-position", "agilerl/algorithms/ippo.py", "            agent_id = self.homogeneous_agents[shared_id][0]\n            agent_space = self.action_space[agent_id]", "            agent_space = self.action_space[self.agent_ids[idx]]", "fire", "C14.8"),
